@@ -276,6 +276,6 @@ def keys(h):
     clo = h.method(cd, "write_data")
     clo.env.overrides.update({"s3": S3Mod(), "convert_df_to_csv": lambda df: "csv", "S3_FILE_PATH": root, "TARGET_BUCKET": "b"})
     clo(c["election_id"], c["office"])
-    h.ensures("live_results.two_puts", len(log) == 2)
+    h.ensures("live_results.two_puts", len(log) == 2, replay=lambda ev: {"target": "verif_replays:results_saved_before_gate_replay", "args": [], "check": "result['exc'] is None and result['ok']"})
     for i, k in enumerate(log):
         _key_obligations(h, f"live_results.key{i}", k, root, c["election_id"])
